@@ -49,19 +49,26 @@ def w_tensordot(ctx, rng, idx, param):
     r2[s2] = r1[s1]
     c2[s2] = c1[s1]
     ca, cb = gen.rand_cplx(rng), gen.rand_cplx(rng)
-    a = gen.rand_tt(rng, r1, c1, gen.rand_ranks(rng, d1, 3), ca)
-    b = gen.rand_tt(rng, r2, c2, gen.rand_ranks(rng, d2, 3), cb)
+    ba, bb = (1, 1), (1, 1)
+    if rng.random() < 0.2:
+        # boundary ranks larger than 1 on the sides that are NOT contracted (factors of an svd, pieces of a longer train)
+        fa, fb = int(rng.integers(1, 4)), int(rng.integers(1, 4))
+        ba = (fa, 1) if mode.startswith('last') else (1, fa)
+        bb = (1, fb) if mode.endswith('first') else (fb, 1)
+    a = gen.rand_tt(rng, r1, c1, gen.rand_ranks(rng, d1, 3, boundary=ba), ca)
+    b = gen.rand_tt(rng, r2, c2, gen.rand_ranks(rng, d2, 3, boundary=bb), cb)
     ctx.describe({'op': 'tensordot', 'mode': mode, 'd1': d1, 'd2': d2, 'k': k, 'overwrite': ow, 'a': [r1, c1, a.ranks], 'b': [r2, c2, b.ranks]})
+    a_cores = gen.clone_cores(a.cores)  # (a itself is rewritten by the call below when overwrite is on)
     call('TT.tensordot', lambda: a.tensordot(b, k, mode=mode, overwrite=ow), prop=P, tags=['mode=' + mode])
     if idx % 4 == 0:
         # a train contracted with itself (both operands are one object), with and without overwriting it
         kk = int(rng.integers(1, d1 + 1))
         sa = slice(d1 - kk, d1) if mode.startswith('last') else slice(0, kk)
         sb = slice(d1 - kk, d1) if mode.endswith('last') else slice(0, kk)
-        if r1[sa] == r1[sb] and c1[sa] == c1[sb]:
+        if r1[sa] == r1[sb] and c1[sa] == c1[sb] and ba == (1, 1):
             for ow2 in (False, True):
                 with probe.oracle():
-                    t = tt.TT(gen.clone_cores(a.cores))
+                    t = tt.TT(gen.clone_cores(a_cores))
                 call('TT.tensordot', lambda: t.tensordot(t, kk, mode=mode, overwrite=ow2), prop=P, tags=['mode=' + mode, 'self_with_self'])
     if idx < 3:
         ctx.sample({'workload': 'tensordot', 'mode': mode, 'num_axes': k, 'overwrite': ow, 'self': {'row': r1, 'col': c1, 'ranks': a.ranks},
